@@ -126,7 +126,7 @@ pub const ELEM_CLASSES: &[NameClass] = &[
 
 pub const ATTR_CLASSES: &[NameClass] = &[
     NameClass { tag: "plain", names: &["a", "b", "id", "name", "c", "lang", "x", "y", "z", "k", "ab", "ba", "abc", "ref", "idref"] },
-    NameClass { tag: "prefixed", names: &["ns:a", "x:id", "xsi:type", "xml:lang", "p:q", "ns:name", "x:y", "xmlñs:a"] },
+    NameClass { tag: "prefixed", names: &["ns:a", "x:id", "xsi:type", "xml:lang", "p:q", "ns:name", "x:y", "xmlñs:a", "xsi:nil", "xml:space", "xsi:nil"] },
     NameClass { tag: "multicolon", names: &["a:b:c"] },
     NameClass { tag: "xmlns", names: &["xmlns", "xmlns:ns", "xmlns:x", "xmlns:xsi", "xmlns:p"] },
     NameClass {
